@@ -47,3 +47,34 @@ M('group_by_no_flush', ['C03', 'C04'], 'group_by does not complete its groups wh
                     for k in i.store.iterate_map(state, i.key):
                         index = i.store.get_map(state, i.key, k)
                         i.store.del_map(state, i.key, k)""")
+
+# ---- C05
+M('roll_density_floor', 'C05', 'roll computes its slot ring size with floor instead of ceil (window not a multiple of stride)',
+  'rxsci/data/roll.py', "    if window % stride:\n        density += 1\n", "    if window % stride and window < stride:\n        density += 1\n")
+M('roll_ge_window', 'C05', 'roll closes a window one item late (count > window-1 becomes count > window)',
+  'rxsci/data/roll.py', "                            if count == window:\n                                i.store.set_state(state_w, (index, i.key), -1)", "                            if count == window + 1:\n                                i.store.set_state(state_w, (index, i.key), -1)")
+
+# ---- C06 / C07 / C04
+M('split_is_not', 'C06', 'split compares predicate values by identity instead of !=',
+  'rxsci/data/split.py', "                    if new_predicate != current_predicate:", "                    if new_predicate is not current_predicate:")
+M('time_split_active_gt', 'C07', 'time_split: active timeout compared with > instead of >=',
+  'rxsci/data/time_split.py', "new >= start + active_timeout", "new > start + active_timeout")
+M('time_split_inactive_gt', 'C07', 'time_split: inactive timeout compared with > instead of >=',
+  'rxsci/data/time_split.py', "new >= last + inactive_timeout", "new > last + inactive_timeout")
+M('time_split_closing_no_ref', 'C07', 'time_split: a closing item does not reset the reference timestamp of the next window',
+  'rxsci/data/time_split.py', """                    elif closing_mapper is not None and closing_mapper(i.item) is True:
+                        i.store.set_state(state_start, i.key, new_timestamp)
+""", """                    elif closing_mapper is not None and closing_mapper(i.item) is True:
+""")
+M('time_split_last_not_updated', 'C07', 'time_split: the last-item timestamp is not updated by ordinary items',
+  'rxsci/data/time_split.py', """                    else:
+                        i.store.set_state(state_last, i.key, new_timestamp)
+""", """                    else:
+                        pass
+""")
+M('group_by_type_key', 'C04', 'group_by keys its groups by (type, value): 1, 1.0 and True land in different groups',
+  'rxsci/operators/group_by.py', "                    map_key = key_mapper(i.item)\n", "                    map_key = key_mapper(i.item)\n                    map_key = (type(map_key).__name__, map_key)\n")
+M('group_by_reverse_flush', 'C04', 'group_by completes open groups in reverse order of first appearance',
+  'rxsci/operators/group_by.py', """                elif type(i) is rs.OnCompletedMux:
+                    for k in i.store.iterate_map(state, i.key):""", """                elif type(i) is rs.OnCompletedMux:
+                    for k in reversed(list(i.store.iterate_map(state, i.key))):""")
